@@ -192,7 +192,16 @@ impl FrameWriter for QuicFrameWriter {
                 "Datagram not allowed for this connection",
             ));
         }
-        let fragments = Fragments::make_fragments(mtu.unwrap(), &mut self.frame_id, frame);
+        let mtu = mtu.unwrap();
+        // a frame is carried by at most 127 fragments of mtu - 4 payload bytes each
+        let size = frame.make_header().len() + frame.len();
+        if mtu <= 4 || size > (mtu - 4) * 127 {
+            return Err(IoError::new(
+                ErrorKind::InvalidInput,
+                "frame does not fit the datagram size of this connection",
+            ));
+        }
+        let fragments = Fragments::make_fragments(mtu, &mut self.frame_id, frame);
         let mut len = 0;
         for fragment in fragments {
             len += fragment.len();
